@@ -84,4 +84,22 @@ example : ∃ m', formatT2 f3M f3L none = .ok m' ∧ m'[24]? = some 0x77 ∧ m'[
     ∧ diffUnits 4 f3M m' = [(20, [3, 0, 3, 0]), (24, [0x77, 0xFE, 0xFE, 0])] := by
   refine ⟨_, rfl, ?_⟩; decide +kernel
 
+/-! ## The hypothesis `Hdr3` is necessary on the code as found (finding
+`t12-long-length-field-on-reserved-byte`, edge of the quantifier)
+
+320-byte data area, memory control TLV reserving byte 24, NDEF TLV at 22 carrying the 1-byte
+message `42` (length byte 23, byte 24 = `99` reserved and jumped over, value at 25): well formed.
+Writing 255 bytes puts `FF 00 FF` at 23..25: the reserved byte 24 becomes `00`. -/
+def h3M : Bytes :=
+  List.replicate 12 0 ++ [0xE1, 0x10, 40, 0] ++ [2, 3, 0x30, 1, 3, 0, 3, 1, 0x99, 0x42, 0xFE] ++ List.replicate 309 0
+def h3L : Layout :=
+  { off := 22, skip := [(24, 25)], areaEnd := 336, cap := 309, readable := true, writeable := true, ndef := [0x42] }
+
+theorem t12_long_length_counterexample :
+    readNdef t2Cfg h3M = .ok (some h3L) ∧ WF t2Cfg h3M h3L ∧ ((255 : Nat) : Int) ≤ h3L.cap ∧ ¬ Hdr3 h3L 255
+    ∧ inSkip h3L.skip 24 = true ∧ h3M[24]? = some 0x99
+    ∧ (match writeNdef t2Cfg h3M h3L (List.replicate 255 0) with
+       | .ok ph => ph.m3[24]? | .error _ => none) = some 0 := by
+  decide +kernel
+
 end NfcVerif.C03
